@@ -589,7 +589,19 @@ func (tr *Tr) nilMapFacts(st *State, mt *types.Map, m string) {
 	tr.sc.fact(fmt.Sprintf("(and (<= 0 %s) (<= %s 2147483648))", sSel(tr.mapLen(st, mt), m), sSel(tr.mapLen(st, mt), m)))
 }
 
+// markMapKinds records what the value heaps of a map type hold, so that heap-version axioms cover map values too.
+func (tr *Tr) markMapKinds(mt *types.Map) {
+	et := mt.Elem()
+	p := mapPrefix(mt) + "#val"
+	if _, done := tr.heapKind[p+"$marked"]; done {
+		return
+	}
+	tr.heapKind[p+"$marked"] = "x"
+	tr.markHeapKinds(Loc{Kind: LElem, Prefix: p}, et)
+}
+
 func (tr *Tr) mapLoad(st *State, mt *types.Map, m, k string) (Value, string) {
+	tr.markMapKinds(mt)
 	tr.nilMapFacts(st, mt, m)
 	has := sSel(sSel(tr.mapDom(st, mt), m), k)
 	et := mt.Elem()
@@ -607,6 +619,7 @@ func (tr *Tr) mapLoad(st *State, mt *types.Map, m, k string) (Value, string) {
 }
 
 func (tr *Tr) mapStore(st *State, mt *types.Map, m, k string, v Value) {
+	tr.markMapKinds(mt)
 	p := mapPrefix(mt)
 	d := tr.mapDom(st, mt)
 	l := tr.mapLen(st, mt)
